@@ -23,6 +23,8 @@ pub struct Norm {
     pub opaque_macros: Vec<String>,
     pub rename_calls: Vec<(String, String)>,
     pub str_params: Vec<String>,
+    pub into_vec: Vec<String>,
+    lvalue_depth: usize,
     tmp_counter: usize,
 }
 
@@ -243,6 +245,8 @@ impl Norm {
                 .map(|o| o.iter().map(|(k, v)| (k.clone(), v.as_str().unwrap().to_string())).collect())
                 .unwrap_or_default(),
             str_params: strs("str_params"),
+            into_vec: strs("into_vec"),
+            lvalue_depth: 0,
             tmp_counter: 0,
         }
     }
@@ -419,6 +423,24 @@ impl Norm {
         acc
     }
 
+    /// N14: in diverge mode an out-of-range *write* `E[i] = v` / `E[i] op= v` diverges: `*E.hq_index_mut(i) = v`
+    fn place_index_diverge(&mut self, left: &mut Expr) {
+        if !self.diverge {
+            return;
+        }
+        if let Expr::Index(ix) = left {
+            if matches!(&*ix.index, Expr::Range(_)) {
+                return;
+            }
+            let sp = ix.bracket_token.span.open();
+            let base = &ix.expr;
+            let idx = &ix.index;
+            let ne: Expr = parse_quote!((*(#base).hq_index_mut(#idx)));
+            *left = ne;
+            self.log("N14-index-write-diverge", sp);
+        }
+    }
+
     fn fresh(&mut self, base: &str) -> Ident {
         self.tmp_counter += 1;
         Ident::new(&format!("__hq_{}{}", base, self.tmp_counter), Span::call_site())
@@ -563,7 +585,55 @@ impl VisitMut for Norm {
                 self.errors.push("let-chain in while condition".into());
             }
         }
-        visit_mut::visit_expr_mut(self, e);
+        match e {
+            Expr::Assign(a) => {
+                self.lvalue_depth += 1;
+                self.visit_expr_mut(&mut a.left);
+                self.lvalue_depth -= 1;
+                self.visit_expr_mut(&mut a.right);
+                self.place_index_diverge(&mut a.left);
+            }
+            Expr::Binary(b) if is_assign_op(&b.op) => {
+                self.lvalue_depth += 1;
+                self.visit_expr_mut(&mut b.left);
+                self.lvalue_depth -= 1;
+                self.visit_expr_mut(&mut b.right);
+                self.place_index_diverge(&mut b.left);
+            }
+            Expr::Reference(r) if r.mutability.is_some() => {
+                self.lvalue_depth += 1;
+                self.visit_expr_mut(&mut r.expr);
+                self.lvalue_depth -= 1;
+            }
+            Expr::MethodCall(mc) => {
+                // receivers are read optimistically (a mutating method on a rewritten read fails to compile => exit 2)
+                let mutating = matches!(mc.method.to_string().as_str(), "push" | "insert" | "remove" | "clear" | "extend" | "pop" | "retain"
+                    | "get_mut" | "iter_mut" | "entry" | "take" | "as_mut" | "push_back" | "pop_front" | "truncate" | "sort" | "sort_unstable_by_key" | "drain");
+                if mutating { self.lvalue_depth += 1; }
+                self.visit_expr_mut(&mut mc.receiver);
+                if mutating { self.lvalue_depth -= 1; }
+                let saved = self.lvalue_depth;
+                self.lvalue_depth = 0;
+                for a in mc.args.iter_mut() {
+                    self.visit_expr_mut(a);
+                }
+                self.lvalue_depth = saved;
+            }
+            Expr::Index(ix) => {
+                self.visit_expr_mut(&mut ix.expr);
+                let saved = self.lvalue_depth;
+                self.lvalue_depth = 0;
+                self.visit_expr_mut(&mut ix.index);
+                self.lvalue_depth = saved;
+            }
+            Expr::Call(_) | Expr::Closure(_) | Expr::Block(_) | Expr::If(_) | Expr::Match(_) | Expr::Macro(_) => {
+                let saved = self.lvalue_depth;
+                self.lvalue_depth = 0;
+                visit_mut::visit_expr_mut(self, e);
+                self.lvalue_depth = saved;
+            }
+            _ => visit_mut::visit_expr_mut(self, e),
+        }
         // post-order rewrites
         match e {
             Expr::ForLoop(f) => {
@@ -577,6 +647,15 @@ impl VisitMut for Norm {
                             f.body.stmts.insert(0, parse_quote!(let #id = *#id;));
                             self.log("N7b-for-ref-pattern", sp);
                         }
+                    }
+                }
+                if let Expr::Path(p) = &*f.expr {
+                    let n = p.path.segments.iter().map(|s| s.ident.to_string()).collect::<Vec<_>>().join("::");
+                    if self.into_vec.iter().any(|x| *x == n) {
+                        let sp = f.for_token.span;
+                        let inner = f.expr.clone();
+                        *f.expr = parse_quote!(hq_map_into_vec(#inner));
+                        self.log("N8f-consume-map-via-vec", sp);
                     }
                 }
                 if let Expr::Reference(r) = &*f.expr {
@@ -627,8 +706,16 @@ impl VisitMut for Norm {
             Expr::MethodCall(mc) => {
                 let name = mc.method.to_string();
                 let sp = mc.method.span();
-                if let Some((_, to)) = self.rename_calls.iter().find(|(k, _)| *k == name) {
-                    mc.method = Ident::new(to, sp);
+                {
+                    // keys are either `method` or `recv.method` (receiver text must end with `recv`)
+                    let recv_txt: String = mc.receiver.to_token_stream().to_string().chars().filter(|c| !c.is_whitespace()).collect();
+                    let hit = self.rename_calls.iter().find(|(k, _)| match k.rsplit_once('.') {
+                        Some((r, m)) => m == name && recv_txt.ends_with(r),
+                        None => *k == name,
+                    });
+                    if let Some((_, to)) = hit {
+                        mc.method = Ident::new(to, sp);
+                    }
                 }
                 match name.as_str() {
                     "unwrap" if mc.args.is_empty() => {
@@ -728,6 +815,19 @@ impl VisitMut for Norm {
                             }
                         }
                     }
+                    "push" if mc.args.len() == 1 && is_entry_or_default(&mc.receiver) => {
+                        // N8g: M.entry(K).or_default().push(X) => hq_map_push(&mut M, K, X)
+                        if let Expr::MethodCall(od) = &*mc.receiver {
+                            if let Expr::MethodCall(en) = &*od.receiver {
+                                let m = &en.receiver;
+                                let k = &en.args[0];
+                                let x = &mc.args[0];
+                                let ne: Expr = parse_quote!(hq_map_push(&mut #m, #k, #x));
+                                *e = ne;
+                                self.log("N8g-entry-or_default-push", sp);
+                            }
+                        }
+                    }
                     "for_each" if mc.args.len() == 1 => {
                         if let Expr::Closure(c) = &mc.args[0] {
                             if c.inputs.len() == 1 && !body_has_return(&c.body) {
@@ -752,7 +852,16 @@ impl VisitMut for Norm {
                 }
             }
             Expr::Index(ix) => {
-                self.site("index", ix.bracket_token.span.open());
+                let sp = ix.bracket_token.span.open();
+                self.site("index", sp);
+                // N14: in diverge mode an out-of-range *read* diverges (places are left alone)
+                if self.diverge && self.lvalue_depth == 0 && !matches!(&*ix.index, Expr::Range(_)) {
+                    let base = &ix.expr;
+                    let idx = &ix.index;
+                    let ne: Expr = parse_quote!((*(#base).hq_index(#idx)));
+                    *e = ne;
+                    self.log("N14-index-read-diverge", sp);
+                }
             }
             Expr::Closure(c) => {
                 // N7: closure parameter patterns `|&x|` and `|_|`
@@ -874,6 +983,25 @@ pub fn map_vec_type(t: &Type) -> Option<Type> {
         }
     }
     None
+}
+
+fn is_entry_or_default(e: &Expr) -> bool {
+    if let Expr::MethodCall(od) = e {
+        if od.method == "or_default" && od.args.is_empty() {
+            if let Expr::MethodCall(en) = &*od.receiver {
+                return en.method == "entry" && en.args.len() == 1;
+            }
+        }
+    }
+    false
+}
+
+fn is_assign_op(op: &BinOp) -> bool {
+    matches!(
+        op,
+        BinOp::AddAssign(_) | BinOp::SubAssign(_) | BinOp::MulAssign(_) | BinOp::DivAssign(_) | BinOp::RemAssign(_)
+            | BinOp::BitXorAssign(_) | BinOp::BitAndAssign(_) | BinOp::BitOrAssign(_) | BinOp::ShlAssign(_) | BinOp::ShrAssign(_)
+    )
 }
 
 fn is_copied_iter(e: &Expr) -> bool {
